@@ -247,3 +247,11 @@ Proof. vm_compute. reflexivity. Qed.
 Example ex_fabric_purge :
   run 3 5 st_init [OReserveNow 1; OUpdate 0 MCase 2; OComplete 0; ORemoveSet [0] None; ODropH 0 3] = mkSt (mkT [] 1) [].
 Proof. vm_compute. reflexivity. Qed.
+
+(* a handler gone with its last message unacknowledged, the acknowledgement arrives before the
+   sweeper: the slot is Dropped with nothing pending, and one sweep still frees it *)
+Example ex_acked_after_drop_is_swept :
+  let s := run 3 5 st_init [OAdd 1; OExAdd 0 false 2; OExDrop 0 0 true false 3; OExAcked 0 0 4] in
+  map s_exch (t_sess (tb s)) = [[Some XDropAck]] /\
+  map s_exch (t_sess (tb (fst (step 3 5 s (OSweep 5))))) = [[None]].
+Proof. vm_compute. split; reflexivity. Qed.
